@@ -53,6 +53,11 @@ def cases_for(rng, q):
     # a ReadAll that got a part of its bytes and waits again must still be the object the registry keeps alive
     cases.append(("case", ["dial 1 ok", "areadall 1", "feed 1 3", "poll", "feed 1 2", "poll", "timer 2 ok", "close 2", "poll", "feed 1 3", "poll", "close 1", "census"]))
     cases.append(("case", ["dial 1 ok", "dial 2 ok", "areadall 1", "areadall 2", "feed 2 5", "poll", "feed 1 1", "poll", "poll", "close 1", "feed 2 3", "poll", "close 2", "census"]))
+    # a packet conn with a read waiting and a chain of writes that runs into the dispatch limit: the deferred write completes
+    # in a later poll while the read is still in flight, and the conn must stay the registered owner of its descriptor
+    for n in (40, 33, 70):
+        cases.append(("case", ["packet 1 ok", "pread 1", "pwrites 1 %d" % n, "poll", "poll", "timer 2 ok", "close 2", "poll", "close 1", "census"]))
+    cases.append(("case", ["packet 1 ok", "pwrites 1 40", "pread 1", "poll", "poll", "packet 2 ok", "pread 2", "pwrites 2 34", "poll", "close 1", "poll", "close 2", "census"]))
     # an accept loop (every completed accept re-arms): the listener must be the registered owner of its descriptor while it waits
     cases.append(("case", ["listen 1 ok", "aaccept 1", "poll", "connect 1", "poll", "poll", "connect 1", "connect 1", "poll", "poll", "timer 2 ok", "close 2",
                            "poll", "close 1", "census"]))
